@@ -541,7 +541,16 @@ func c10Reference(c *Ctx, ph c10Phase, tag string) (map[string]map[int]string, e
 			}
 			return nil
 		}
+		// a replay that stops with a silent, idle server leaves a goroutine dump of that server behind (diagnosis of a deadlock)
+		blockedDump := func(err error, at string) {
+			if err == ErrBlocked && os.Getenv("VERIF_C10_DUMP") != "" {
+				srv.Quit()
+				srv.WaitDeath(5 * time.Second)
+				fmt.Printf("BLOCKED-DUMP %s %s\n%s\nEND-BLOCKED-DUMP\n", tag, at, srv.StderrHead(60000))
+			}
+		}
 		if err := ask(0); err != nil {
+			blockedDump(err, "initial queries")
 			return nil, err
 		}
 		k := 0
@@ -558,6 +567,7 @@ func c10Reference(c *Ctx, ph c10Phase, tag string) (map[string]map[int]string, e
 			}
 			srv.Notify(m.Method, substRoot(m.Params, ws.Root))
 			if err := ask(k); err != nil {
+				blockedDump(err, fmt.Sprintf("after mutator %d (%s)", k, m.Kind))
 				return nil, err
 			}
 		}
@@ -601,6 +611,7 @@ func runC10(c *Ctx) {
 	raceClasses := map[string]int{}
 	var rmu sync.Mutex
 	overlap := map[string]int{}
+	silentOnce := 0
 	parallel(nPhases, 6, func(pi int) {
 		r := root.Fork(uint64(pi))
 		// every third phase has no edits: saves, opens/closes, watched-file events and settings changes only
@@ -613,11 +624,24 @@ func runC10(c *Ctx) {
 		if err == ErrBlocked {
 			// a server that stops consuming CPU and never answers while the very same messages are sent one at a time: if it
 			// does so again on a second replay it is a deadlock (a lock that is never released), not a scheduling accident
-			if _, err2 := c10Reference(c, ph, tag+"again"); err2 == ErrBlocked {
+			ref2, err2 := c10Reference(c, ph, tag+"again")
+			if err2 == ErrBlocked {
 				c.Report("deadlock|sequential-replay", "the server stops answering (no CPU progress, process alive) when the messages of this phase are sent one at a time; reproduced on a second replay",
 					map[string]interface{}{"phase": ph})
 				return
 			}
+			// not reproduced: the repetition is the reference of this phase (the phase is checked in full); the unreproduced stop is
+			// counted, and more than a few of them in one run leave the run inconclusive
+			c.Count("reference_replays_silent_once_and_answered_on_repetition", 1)
+			rmu.Lock()
+			silentOnce++
+			tooMany := silentOnce > 3
+			rmu.Unlock()
+			if tooMany {
+				c.Inconclusive("more than three sequential reference replays ended with a silent idle server and were answered on repetition")
+				return
+			}
+			ref, err = ref2, err2
 		}
 		if err != nil {
 			c.Inconclusive("sequential reference replay failed: " + err.Error())
@@ -863,4 +887,33 @@ func c10Monotone(ops []porcupine.Operation, model porcupine.Model) bool {
 		assigned[i] = found
 	}
 	return true
+}
+
+func init() {
+	// vcheck c10ref <rounds>: only the sequential reference replays of the thorough tier's phases, six at a time, <rounds> times over;
+	// with VERIF_C10_DUMP=1 a replay that ends with a silent idle server prints that server's goroutine dump
+	special["c10ref"] = func(args []string) int {
+		c := NewCtx("C10", "thorough")
+		defer os.RemoveAll(c.Tmp)
+		rounds := 1
+		if len(args) > 0 {
+			fmt.Sscan(args[0], &rounds)
+		}
+		root := NewRng(c.Seed).Fork(10)
+		blocked := 0
+		for round := 0; round < rounds; round++ {
+			parallel(60, 6, func(pi int) {
+				r := root.Fork(uint64(pi))
+				ph := c10GenPhase(r, 900, pi%3 == 2)
+				t0 := time.Now()
+				_, err := c10Reference(c, ph, fmt.Sprintf("c10ref%dp%d", round, pi))
+				fmt.Printf("round %d phase %d: %v (%.0fs)\n", round, pi, err, time.Since(t0).Seconds())
+				if err == ErrBlocked {
+					blocked++
+				}
+			})
+		}
+		fmt.Println("blocked replays:", blocked)
+		return 0
+	}
 }
